@@ -35,6 +35,16 @@ theorem eval_descends (env : Env) (rp : List Nat) (n : Nat) (st st1 : St) (v : V
     eval env rp (negChain (n + 1)) st = (applyUn env.oracle .neg v, st1, ev) := by
   simp [negChain, eval, h]
 
+/-- … but evaluation descends only where it evaluates: an operand that the left operand cuts off (`false and …`,
+    `true or …`) and the branch an `if` does not take contribute nothing — result, state and history are the same for every
+    depth `n` of the part that is not reached -/
+theorem cut_off_operand_is_not_descended (env : Env) (rp : List Nat) (st : St) (n : Nat) (t : Expr) :
+    eval env rp (.and (.lit (.bool false)) (negChain n)) st = (.ok (.bool false), st, []) ∧
+    eval env rp (.or (.lit (.bool true)) (negChain n)) st = (.ok (.bool true), st, []) ∧
+    eval env rp (.ite (.lit (.bool true)) t (negChain n)) st = eval env (1 :: rp) t st ∧
+    eval env rp (.ite (.lit (.bool false)) (negChain n) t) st = eval env (2 :: rp) t st := by
+  refine ⟨by simp [eval], by simp [eval], ?_, ?_⟩ <;> simp [eval]
+
 /-- parentheses are not nodes: a parenthesised expression parses to the expression itself — whatever the number
     of parentheses, no depth is added (the one construct for which the property holds) -/
 theorem parens_are_not_nodes (o : Oracle) (f : Nat) (ts rest : List Tok) (e : Expr)
